@@ -842,7 +842,9 @@ static void run_gradx(vh::Trace& tr, vh::Rng& rng, int stage) {
       static long pick = 0;
       const int what = (int)(++pick % 4);
       if (what == 0) {
-        const int n = choose_subsets(rng, templ, image, [&] { return shared_ptr<ProjectorByBinPair>(vh::make_explicit_projector_pair(data)); });
+        int n = cur.numSubsets;
+        for (int attempt = 0; attempt < 8 && n == cur.numSubsets; ++attempt)
+          n = choose_subsets(rng, templ, image, [&] { return shared_ptr<ProjectorByBinPair>(vh::make_explicit_projector_pair(data)); });
         if (n != cur.numSubsets) { cur.numSubsets = n; changed = "numSubsets"; }
       } else if (what == 1) { cur.maxSegProc = cur.maxSegProc == -1 ? 0 : -1; changed = "maxSegProc"; }
       else if (what == 2) { const int f = rng.range(0, dur < 125 ? 1 : dur < 500 ? 2 : 3); if (f != cur.frame_num) { cur.frame_num = f; changed = "frame"; } }
